@@ -444,9 +444,16 @@ func (t *treeCase) nonMembership(key []byte, bits int) {
 		switch {
 		case inGap:
 			// another absent key of the same gap: the neighbour pair proves the whole
-			// gap empty; accepted by ics23, not asserted either way
+			// gap empty; ics23 accepts it (inherent to neighbour proofs)
 			if got && !bytes.Equal(p, key) {
 				t.st.add(func() { t.st.sameGapAccepted++ })
+				// strict reading of the property ("verifies only for that key"): own key,
+				// does not abort the tree case
+				ww := w()
+				ww["other_key"] = vf.Hex(p)
+				ww["tree_case"], ww["tree"], ww["version"], ww["root"] = t.id, t.desc, t.ver, vf.Hex(t.root)
+				t.c.Violation("nonmembership:other-absent-key-in-same-gap-accepted", ww,
+					"tree %d (%s) version %d: non-membership proof generated for %x also verifies for the different absent key %x of the same gap (%x..%x)", t.id, t.desc, t.ver, key, p, wantL, wantR)
 			}
 		case got && present:
 			t.violation("nonmembership:accepted-for-present-key", w(), "non-membership proof for %x also verifies for %x, which is PRESENT in this version", key, p)
